@@ -6,7 +6,9 @@ import (
 	"context"
 	"crypto/tls"
 	"fmt"
+	"google.golang.org/protobuf/proto"
 	"strings"
+	"sync"
 	"testing"
 	"time"
 
@@ -31,12 +33,18 @@ type Case struct {
 	Endpoints []EP
 	// ClientChain: the configured client certificate file holds the leaf followed by its issuing CA
 	ClientChain bool
+	// ViaConf: the signer is built from the "signer" map of a gensign configuration (as cmd/gensign does)
+	ViaConf bool
+	// Parallel: number of Sign calls issued at the same time on the one Signer (0 or 1 = a single call)
+	Parallel int
 }
 
 func gen(t *rapid.T) Case {
 	c := Case{Bundle: rapid.SampledFrom([][]string{{"caA"}, {"caB"}, {"caA", "caB"}, {"bundleAB"}, {"caB", "caA"}, {"caA", "caA"},
 		{"caA"}, {"caB"}, {"caA", "caB"}, {}, {""}, {"", ""}, {"", "caA"}}).Draw(t, "bundle")}
 	c.ClientChain = rapid.Bool().Draw(t, "clientChain")
+	c.ViaConf = rapid.Bool().Draw(t, "viaConf")
+	c.Parallel = rapid.SampledFrom([]int{1, 1, 2, 3, 4}).Draw(t, "parallel")
 	n := rapid.IntRange(1, 3).Draw(t, "n")
 	for i := 0; i < n; i++ {
 		l := fmt.Sprintf("e%d", i)
@@ -131,10 +139,10 @@ func exec(c Case) (vh.Outcome, error) {
 		clientCertFile = f.ClientChainFile()
 		out.Classes = append(out.Classes, "client-cert-with-chain")
 	}
-	signer, err := crypki.NewSigner(crypki.SignerConfig{
+	signer, err := vh.NewCrypkiSigner(crypki.SignerConfig{
 		TLSClientKeyFile: f.ClientKeyFile(), TLSClientCertFile: clientCertFile, TLSCACertFiles: files,
 		CrypkiEndpoints: ips, CrypkiPort: uint(g.Port), Retries: 1, PerTryTimeout: 10 * time.Second,
-	})
+	}, c.ViaConf)
 	if err != nil {
 		if degenerate {
 			// an empty list or an empty path may be refused as a configuration error: nothing is signed then
@@ -149,12 +157,49 @@ func exec(c Case) (vh.Outcome, error) {
 	req := &pb.SSHCertificateSigningRequest{KeyMeta: &pb.KeyMeta{Identifier: "ssh-user-key"}, Principals: []string{"user_a"}, PublicKey: string(ssh.MarshalAuthorizedKey(vh.SSHPub("p256b"))), Validity: 3600, KeyId: "k"}
 	ctx, cancel := context.WithTimeout(context.Background(), 30*time.Second)
 	defer cancel()
-	var certs []ssh.PublicKey
-	var serr error
-	if perr := vh.Catch(func() { certs, _, serr = signer.Sign(ctx, req) }); perr != nil {
-		return out, vh.Errf("Sign crashed: %v", perr)
+	par := c.Parallel
+	if par < 1 {
+		par = 1
 	}
-	desc := fmt.Sprintf("bundle %v, endpoints %+v", c.Bundle, c.Endpoints)
+	type result struct {
+		certs []ssh.PublicKey
+		err   error
+		crash error
+	}
+	results := make([]result, par)
+	var wg sync.WaitGroup
+	startAll := make(chan struct{})
+	for k := 0; k < par; k++ {
+		k := k
+		wg.Add(1)
+		go func() {
+			defer wg.Done()
+			<-startAll
+			r := proto.Clone(req).(*pb.SSHCertificateSigningRequest)
+			results[k].crash = vh.Catch(func() { results[k].certs, _, results[k].err = signer.Sign(ctx, r) })
+		}()
+	}
+	close(startAll)
+	wg.Wait()
+	desc := fmt.Sprintf("bundle %v, endpoints %+v, %d simultaneous call(s)", c.Bundle, c.Endpoints, par)
+	for _, r := range results {
+		if r.crash != nil {
+			return out, vh.Errf("%s: Sign crashed: %v", desc, r.crash)
+		}
+	}
+	if par > 1 {
+		out.Classes = append(out.Classes, "simultaneous-calls")
+	}
+	// every call is judged like a single one
+	certs, serr := results[0].certs, results[0].err
+	for _, r := range results[1:] {
+		if (r.err == nil) != (serr == nil) {
+			return out, vh.Errf("%s: the simultaneous calls on one Signer ended differently: %v vs %v", desc, serr, r.err)
+		}
+		if r.err == nil && (len(r.certs) != len(certs) || (len(certs) > 0 && !bytes.Equal(r.certs[0].Marshal(), certs[0].Marshal()))) {
+			return out, vh.Errf("%s: the simultaneous calls were answered by different endpoints", desc)
+		}
+	}
 	// impostors never receive the request
 	for i, e := range c.Endpoints {
 		calls := g.Servers[i].Calls()
@@ -178,8 +223,8 @@ func exec(c Case) (vh.Outcome, error) {
 		return out, vh.Errf("%s: the answer did not come from the first genuine endpoint %d", desc, first)
 	}
 	calls := g.Servers[first].Calls()
-	if len(calls) != 1 {
-		return out, vh.Errf("%s: the answering endpoint saw %d requests", desc, len(calls))
+	if len(calls) != par {
+		return out, vh.Errf("%s: the answering endpoint saw %d requests, expected %d", desc, len(calls), par)
 	}
 	if calls[0].TLSVersion < tls.VersionTLS12 {
 		return out, vh.Errf("%s: negotiated TLS version %#x is older than 1.2", desc, calls[0].TLSVersion)
@@ -192,7 +237,7 @@ func exec(c Case) (vh.Outcome, error) {
 	return out, nil
 }
 
-const rule = "CA bundles of one or two files (single CA, the other CA, both as separate files, both in one file, a file listed twice) and, 4 in 13, degenerate ones (no file at all, empty paths, an empty path next to a real file: either refused as configuration, or no CA beyond the readable files is trusted); the 'foreign' CA is installed as this process's host trust store (SSL_CERT_FILE), i.e. it stands for a publicly trusted CA that is not configured; 1..3 endpoints on loopback aliases, each a real gRPC-over-TLS server with identity {issued by configured CA A / CA B with matching IP SAN, by a foreign CA, self-signed, expired a day ago / 20 s ago, not yet valid, valid since 20 s only (genuine), valid for another address, issued by the CA of the RA's own client certificate} x protocol range {TLS 1.0-1.1 only, 1.2 only, 1.3 only, any} x client-certificate policy {none, request, require+verify, request while naming another CA, verify-if-given against the right / another client CA}; the client certificate file holds the leaf alone or the leaf followed by its issuing CA; every server would sign (each with its own certificate, so the answering server is identifiable). Oracle: Sign succeeds iff some endpoint is genuine (issued by a CA of the bundle, right address, valid now, speaks >= TLS 1.2) and the answer is the first such endpoint's; impostors never receive the RPC; negotiated version >= 1.2; when the server asked, the peer certificate is byte-identical to the configured client certificate. Non-trivial: at least one impostor in the list."
+const rule = "CA bundles of one or two files (single CA, the other CA, both as separate files, both in one file, a file listed twice) and, 4 in 13, degenerate ones (no file at all, empty paths, an empty path next to a real file: either refused as configuration, or no CA beyond the readable files is trusted); the 'foreign' CA is installed as this process's host trust store (SSL_CERT_FILE), i.e. it stands for a publicly trusted CA that is not configured; 1..3 endpoints on loopback aliases, each a real gRPC-over-TLS server with identity {issued by configured CA A / CA B with matching IP SAN, by a foreign CA, self-signed, expired a day ago / 20 s ago, not yet valid, valid since 20 s only (genuine), valid for another address, issued by the CA of the RA's own client certificate} x protocol range {TLS 1.0-1.1 only, 1.2 only, 1.3 only, any} x client-certificate policy {none, request, require+verify, request while naming another CA, verify-if-given against the right / another client CA}; the signer is built from the struct or from the 'signer' map of a gensign configuration; the client certificate file holds the leaf alone or the leaf followed by its issuing CA; 1..4 Sign calls issued at the same moment on the one Signer, each judged like a single call; every server would sign (each with its own certificate, so the answering server is identifiable). Oracle: Sign succeeds iff some endpoint is genuine (issued by a CA of the bundle, right address, valid now, speaks >= TLS 1.2) and the answer is the first such endpoint's; impostors never receive the RPC; negotiated version >= 1.2; when the server asked, the peer certificate is byte-identical to the configured client certificate. Non-trivial: at least one impostor in the list."
 
 func TestC18TLS(t *testing.T) {
 	vh.Run(t, vh.Spec[Case]{Property: "C18", Name: "TestC18TLS", Rule: rule, Gen: gen, Exec: exec})
@@ -204,7 +249,7 @@ func TestC18Grid(t *testing.T) {
 	for _, id := range []string{"caA", "caB", "foreign", "selfsigned", "expired", "notyet", "wrongname", "justexpired", "justvalid"} {
 		for _, pr := range []string{"old", "tls12", "tls13", "any"} {
 			for _, ca := range []string{"none", "request", "require", "request-otherca", "verifyifgiven", "verifyifgiven-otherca"} {
-				cases = append(cases, Case{Bundle: []string{"caA"}, Endpoints: []EP{{id, pr, ca}, {"caA", "any", "request"}}})
+				cases = append(cases, Case{Bundle: []string{"caA"}, Endpoints: []EP{{id, pr, ca}, {"caA", "any", "request"}}, ViaConf: len(cases)%2 == 1})
 			}
 		}
 	}
